@@ -1141,6 +1141,13 @@ impl DeriveShape for Value {
             Value::Symbol(p) => {
                 if let Some(s) = symbol_table.get(&p.val) {
                     s.clone()
+                } else if p.val.as_ref() == "env" {
+                    // The process environment is a tuple whose fields are only known
+                    // at run time, so nothing is inferred about it from its use.
+                    Shape::Narrowed(NarrowedShape {
+                        pos: p.pos.clone(),
+                        types: NarrowingShape::Any,
+                    })
                 } else {
                     Shape::Hole(p.clone())
                 }
